@@ -221,9 +221,42 @@ func c17Poly(c *fw.Ctx, gf *utils.GaloisField, rf refdec.Field, fs fieldSpec, r 
 	inner := fmt.Sprintf("%s a=%v b=%v", fs.name, a, b)
 	c.Step(func() string { return inner })
 	bad := false
+	// the coefficient slices handed to the library are sub-slices of one larger buffer
+	// (neighbouring polynomials of one message): nothing outside them may be touched
+	const guard = 48
+	buf := make([]int, len(a)+len(b)+3*guard)
+	for i := range buf {
+		buf[i] = -7
+	}
+	sa := buf[guard : guard+len(a) : guard+len(a)+guard/2]
+	sb := buf[2*guard+len(a) : 2*guard+len(a)+len(b) : len(buf)-guard/2]
+	copy(sa, a)
+	copy(sb, b)
+	defer func() {
+		for i, v := range buf {
+			inA := i >= guard && i < guard+len(a)
+			inB := i >= 2*guard+len(a) && i < 2*guard+len(a)+len(b)
+			if !inA && !inB && v != -7 {
+				c.Violation("gfpoly/writes-outside-argument", fmt.Sprintf("an operation wrote %d into the caller's buffer at offset %d, outside the coefficient slices it was given", v, i), inner, "")
+				return
+			}
+		}
+		for i := range a {
+			if sa[i] != a[i] {
+				c.Violation("gfpoly/modifies-argument", "coefficients of operand a were changed", inner, "")
+				return
+			}
+		}
+		for i := range b {
+			if sb[i] != b[i] {
+				c.Violation("gfpoly/modifies-argument", "coefficients of operand b were changed", inner, "")
+				return
+			}
+		}
+	}()
 	pv, _ := fw.Call(func() {
-		pa := utils.NewGFPoly(gf, append([]int{}, a...))
-		pb := utils.NewGFPoly(gf, append([]int{}, b...))
+		pa := utils.NewGFPoly(gf, sa)
+		pb := utils.NewGFPoly(gf, sb)
 		if s := pa.AddOrSubstract(pb); !refdec.PolyEq(s.Coefficients, rf.PolyAdd(a, b)) {
 			c.Violation("gfpoly.AddOrSubstract", fmt.Sprintf("sum %v, reference %v", s.Coefficients, rf.PolyAdd(a, b)), inner, "")
 			bad = true
@@ -346,8 +379,20 @@ func c17RS(c *fw.Ctx, fs fieldSpec, rf refdec.Field, u *fw.Unit) {
 		inner := fmt.Sprintf("%s history=%v k=%d data=%v", fs.name, ks, k, data)
 		c.Step(func() string { return inner })
 		var out []int
-		in := append([]int{}, data...)
+		// the data block is a sub-slice of a longer message with spare capacity behind it
+		msg := make([]int, len(data)+700)
+		for i := range msg {
+			msg[i] = -7
+		}
+		in := msg[:len(data):len(data)+650]
+		copy(in, data)
 		pv, _ := fw.Call(func() { out = enc.Encode(in, k) })
+		for i := len(data); i < len(msg); i++ {
+			if msg[i] != -7 {
+				c.Violation("rs.Encode/writes-outside-argument", fmt.Sprintf("Encode wrote %d into the caller's buffer %d elements behind the data slice", msg[i], i-len(data)), inner, "")
+				break
+			}
+		}
 		klass := "k<order"
 		if k+fs.base > fs.size-1 {
 			klass = "k>=order"
